@@ -485,6 +485,24 @@ pub fn s17b_failing_twins3() -> Scenario
     sc
 }
 
+/// S20: a rule whose declared source is a DIRECTORY (the command reads two files inside it); ruler
+/// hashes the directory (names and contents), so an edit of either file must cause a rebuild
+pub fn s20_dir_source() -> Scenario
+{
+    let t = RuleSpec { targets: sv(&["t"]), sources: sv(&["d"]), lines: vec![Line::Cat { inputs: sv(&["d/x", "d/y"]), out: s("t") }] };
+    Scenario
+    {
+        name: "S20-directory-source".into(),
+        variants: vec![vec![t, cat_rule("dd", &["t", "s2"])]],
+        edits: vec![(s("d/x"), xy()), (s("d/y"), xy()), (s("s2"), xy())],
+        goals: g(&["t"]),
+        tamper: sv(&["t"]),
+        ops: OpKinds { edit: true, build: true, clean: true, delete: true, rm_leaf: true, ..Default::default() },
+        nondeterministic: false,
+        flat_variants: vec![],
+    }
+}
+
 /// S17 (C18 only): a two-target rule whose targets are byte-identical twins and read an undeclared
 /// file `k` (deleting `k` makes its command fail), next to a rule whose target can take the same
 /// content as the twins.  Reaches: partial recovery of one twin from an entry another rule's target
@@ -518,7 +536,7 @@ pub fn by_name(name: &str) -> Option<Scenario>
 
 pub fn all_scenarios() -> Vec<Scenario>
 {
-    let mut v = vec![s1_chain(), s1_chain_xyz(), s14_five(), s2_diamond(), s3_multi(), s3_c18(), s4_twins(), s4_c18(), s5_variants(), s6_exec(), s8_failures(), s9_scope(), s10_bundle(), s11_three(), s12_multiline_failure(), s13_binary(), s15_repeated(), s16_big(), s17_c18_failing_twins(), s18_empty(), s19_aside(), s17b_failing_twins3()];
+    let mut v = vec![s1_chain(), s1_chain_xyz(), s14_five(), s2_diamond(), s3_multi(), s3_c18(), s4_twins(), s4_c18(), s5_variants(), s6_exec(), s8_failures(), s9_scope(), s10_bundle(), s11_three(), s12_multiline_failure(), s13_binary(), s15_repeated(), s16_big(), s17_c18_failing_twins(), s18_empty(), s19_aside(), s17b_failing_twins3(), s20_dir_source()];
     for m in 0..4 { v.push(s7_undeclared(m)); }
     for m in 0..8 { v.push(s7_undeclared3(m)); }
     v.push(s7_preserving());
